@@ -8,6 +8,11 @@ restate each equation so that — through their `@[congr]` lemmas — `simp` eva
 namespace ZapVerif.GoMini
 open ZapVerif
 
+/-! NOTE on `:= id rfl`: a theorem whose proof is literally `rfl` is used by `simp` *definitionally* (no proof step is
+    recorded) and the kernel re-establishes the equation by its own conversion check, which on interpreter terms may
+    unfold `evalE` (structural recursion over a nested inductive) and overflow the kernel's stack ("deep recursion").
+    `id rfl` keeps the same one-line proofs but makes `simp` record ordinary rewrite steps. -/
+
 /-! ## integer widths -/
 
 theorem wrap_int_id (v : Int) (h1 : -9223372036854775808 ≤ v) (h2 : v < 9223372036854775808) : wrap .int v = v := by
@@ -47,16 +52,16 @@ def Res.out {α} (r : Res α) (k : α → Out) : Out :=
   | .panic p => .panic p
   | .stuck w => .stuck w
 
-@[simp] theorem Res.out_ok {α} (a : α) (k : α → Out) : (Res.ok a).out k = k a := rfl
-@[simp] theorem Res.out_panic {α} (p : Panic) (k : α → Out) : (Res.panic p : Res α).out k = .panic p := rfl
-@[simp] theorem Res.out_stuck {α} (w : String) (k : α → Out) : (Res.stuck w : Res α).out k = .stuck w := rfl
+@[simp] theorem Res.out_ok {α} (a : α) (k : α → Out) : (Res.ok a).out k = k a := id rfl
+@[simp] theorem Res.out_panic {α} (p : Panic) (k : α → Out) : (Res.panic p : Res α).out k = .panic p := id rfl
+@[simp] theorem Res.out_stuck {α} (w : String) (k : α → Out) : (Res.stuck w : Res α).out k = .stuck w := id rfl
 @[congr] theorem Res.out_congr {α} {r r' : Res α} (k : α → Out) (h : r = r') : r.out k = r'.out k := by rw [h]
 theorem Res.out_ite {α} (c : Prop) [Decidable c] (a b : Res α) (k : α → Out) :
     (if c then a else b).out k = if c then a.out k else b.out k := by split <;> rfl
 
-@[simp] theorem Res.bind_ok {α β} (a : α) (k : α → Res β) : (Res.ok a).bind k = k a := rfl
-@[simp] theorem Res.bind_panic {α β} (p : Panic) (k : α → Res β) : (Res.panic p : Res α).bind k = .panic p := rfl
-@[simp] theorem Res.bind_stuck {α β} (w : String) (k : α → Res β) : (Res.stuck w : Res α).bind k = .stuck w := rfl
+@[simp] theorem Res.bind_ok {α β} (a : α) (k : α → Res β) : (Res.ok a).bind k = k a := id rfl
+@[simp] theorem Res.bind_panic {α β} (p : Panic) (k : α → Res β) : (Res.panic p : Res α).bind k = .panic p := id rfl
+@[simp] theorem Res.bind_stuck {α β} (w : String) (k : α → Res β) : (Res.stuck w : Res α).bind k = .stuck w := id rfl
 @[congr] theorem Res.bind_congr {α β} {r r' : Res α} (k : α → Res β) (h : r = r') : r.bind k = r'.bind k := by rw [h]
 theorem Res.bind_ite {α β} (c : Prop) [Decidable c] (a b : Res α) (k : α → Res β) :
     (if c then a else b).bind k = if c then a.bind k else b.bind k := by split <;> rfl
@@ -67,13 +72,13 @@ def Out.andThen (o : Out) (k : State → Out) : Out :=
   | .normal σ => k σ
   | o => o
 
-@[simp] theorem Out.andThen_normal (σ : State) (k : State → Out) : (Out.normal σ).andThen k = k σ := rfl
-@[simp] theorem Out.andThen_brk (σ : State) (k : State → Out) : (Out.brk σ).andThen k = .brk σ := rfl
-@[simp] theorem Out.andThen_cont (σ : State) (k : State → Out) : (Out.cont σ).andThen k = .cont σ := rfl
-@[simp] theorem Out.andThen_ret (vs : List Val) (σ : State) (k : State → Out) : (Out.ret vs σ).andThen k = .ret vs σ := rfl
-@[simp] theorem Out.andThen_panic (p : Panic) (k : State → Out) : (Out.panic p).andThen k = .panic p := rfl
-@[simp] theorem Out.andThen_stuck (w : String) (k : State → Out) : (Out.stuck w).andThen k = .stuck w := rfl
-@[simp] theorem Out.andThen_oof (k : State → Out) : Out.oof.andThen k = .oof := rfl
+@[simp] theorem Out.andThen_normal (σ : State) (k : State → Out) : (Out.normal σ).andThen k = k σ := id rfl
+@[simp] theorem Out.andThen_brk (σ : State) (k : State → Out) : (Out.brk σ).andThen k = .brk σ := id rfl
+@[simp] theorem Out.andThen_cont (σ : State) (k : State → Out) : (Out.cont σ).andThen k = .cont σ := id rfl
+@[simp] theorem Out.andThen_ret (vs : List Val) (σ : State) (k : State → Out) : (Out.ret vs σ).andThen k = .ret vs σ := id rfl
+@[simp] theorem Out.andThen_panic (p : Panic) (k : State → Out) : (Out.panic p).andThen k = .panic p := id rfl
+@[simp] theorem Out.andThen_stuck (w : String) (k : State → Out) : (Out.stuck w).andThen k = .stuck w := id rfl
+@[simp] theorem Out.andThen_oof (k : State → Out) : Out.oof.andThen k = .oof := id rfl
 @[congr] theorem Out.andThen_congr {o o' : Out} (k : State → Out) (h : o = o') : o.andThen k = o'.andThen k := by rw [h]
 theorem Out.andThen_ite (c : Prop) [Decidable c] (a b : Out) (k : State → Out) :
     (if c then a else b).andThen k = if c then a.andThen k else b.andThen k := by split <;> rfl
@@ -93,13 +98,13 @@ def Out.catchBrk : Out → Out
   | .brk σ => .normal σ
   | o => o
 
-@[simp] theorem Out.catchBrk_normal (σ : State) : (Out.normal σ).catchBrk = .normal σ := rfl
-@[simp] theorem Out.catchBrk_brk (σ : State) : (Out.brk σ).catchBrk = .normal σ := rfl
-@[simp] theorem Out.catchBrk_cont (σ : State) : (Out.cont σ).catchBrk = .cont σ := rfl
-@[simp] theorem Out.catchBrk_ret (vs : List Val) (σ : State) : (Out.ret vs σ).catchBrk = .ret vs σ := rfl
-@[simp] theorem Out.catchBrk_panic (p : Panic) : (Out.panic p).catchBrk = .panic p := rfl
-@[simp] theorem Out.catchBrk_stuck (w : String) : (Out.stuck w).catchBrk = .stuck w := rfl
-@[simp] theorem Out.catchBrk_oof : Out.oof.catchBrk = .oof := rfl
+@[simp] theorem Out.catchBrk_normal (σ : State) : (Out.normal σ).catchBrk = .normal σ := id rfl
+@[simp] theorem Out.catchBrk_brk (σ : State) : (Out.brk σ).catchBrk = .normal σ := id rfl
+@[simp] theorem Out.catchBrk_cont (σ : State) : (Out.cont σ).catchBrk = .cont σ := id rfl
+@[simp] theorem Out.catchBrk_ret (vs : List Val) (σ : State) : (Out.ret vs σ).catchBrk = .ret vs σ := id rfl
+@[simp] theorem Out.catchBrk_panic (p : Panic) : (Out.panic p).catchBrk = .panic p := id rfl
+@[simp] theorem Out.catchBrk_stuck (w : String) : (Out.stuck w).catchBrk = .stuck w := id rfl
+@[simp] theorem Out.catchBrk_oof : Out.oof.catchBrk = .oof := id rfl
 theorem Out.catchBrk_ite (c : Prop) [Decidable c] (a b : Out) :
     (if c then a else b).catchBrk = if c then a.catchBrk else b.catchBrk := by split <;> rfl
 
@@ -110,13 +115,13 @@ def Out.loopBody (o : Out) (k : State → Out) : Out :=
   | .brk σ => .normal σ
   | o => o
 
-@[simp] theorem Out.loopBody_normal (σ : State) (k : State → Out) : (Out.normal σ).loopBody k = k σ := rfl
-@[simp] theorem Out.loopBody_cont (σ : State) (k : State → Out) : (Out.cont σ).loopBody k = k σ := rfl
-@[simp] theorem Out.loopBody_brk (σ : State) (k : State → Out) : (Out.brk σ).loopBody k = .normal σ := rfl
-@[simp] theorem Out.loopBody_ret (vs : List Val) (σ : State) (k : State → Out) : (Out.ret vs σ).loopBody k = .ret vs σ := rfl
-@[simp] theorem Out.loopBody_panic (p : Panic) (k : State → Out) : (Out.panic p).loopBody k = .panic p := rfl
-@[simp] theorem Out.loopBody_stuck (w : String) (k : State → Out) : (Out.stuck w).loopBody k = .stuck w := rfl
-@[simp] theorem Out.loopBody_oof (k : State → Out) : Out.oof.loopBody k = .oof := rfl
+@[simp] theorem Out.loopBody_normal (σ : State) (k : State → Out) : (Out.normal σ).loopBody k = k σ := id rfl
+@[simp] theorem Out.loopBody_cont (σ : State) (k : State → Out) : (Out.cont σ).loopBody k = k σ := id rfl
+@[simp] theorem Out.loopBody_brk (σ : State) (k : State → Out) : (Out.brk σ).loopBody k = .normal σ := id rfl
+@[simp] theorem Out.loopBody_ret (vs : List Val) (σ : State) (k : State → Out) : (Out.ret vs σ).loopBody k = .ret vs σ := id rfl
+@[simp] theorem Out.loopBody_panic (p : Panic) (k : State → Out) : (Out.panic p).loopBody k = .panic p := id rfl
+@[simp] theorem Out.loopBody_stuck (w : String) (k : State → Out) : (Out.stuck w).loopBody k = .stuck w := id rfl
+@[simp] theorem Out.loopBody_oof (k : State → Out) : Out.oof.loopBody k = .oof := id rfl
 @[congr] theorem Out.loopBody_congr {o o' : Out} (k : State → Out) (h : o = o') : o.loopBody k = o'.loopBody k := by rw [h]
 theorem Out.loopBody_ite (c : Prop) [Decidable c] (a b : Out) (k : State → Out) :
     (if c then a else b).loopBody k = if c then a.loopBody k else b.loopBody k := by split <;> rfl
@@ -129,7 +134,7 @@ def Out.loopPost (o : Out) (k : State → Out) : Out :=
   | .cont _ => .stuck "continue in post statement"
   | o => o
 
-@[simp] theorem Out.loopPost_normal (σ : State) (k : State → Out) : (Out.normal σ).loopPost k = k σ := rfl
+@[simp] theorem Out.loopPost_normal (σ : State) (k : State → Out) : (Out.normal σ).loopPost k = k σ := id rfl
 @[congr] theorem Out.loopPost_congr {o o' : Out} (k : State → Out) (h : o = o') : o.loopPost k = o'.loopPost k := by rw [h]
 
 /-- finish an assignment -/
@@ -147,10 +152,10 @@ def retK (σ : State) (lhs : List LV) (f : String) : Out → Out
   | o => o
 
 @[simp] theorem retK_ret (σ : State) (lhs : List LV) (f : String) (rs : List Val) (σ' : State) :
-    retK σ lhs f (.ret rs σ') = assignK { σ with fld := σ'.fld } lhs (msg "result arity of" f) rs := rfl
+    retK σ lhs f (.ret rs σ') = assignK { σ with fld := σ'.fld } lhs (msg "result arity of" f) rs := id rfl
 @[simp] theorem retK_normal (σ : State) (lhs : List LV) (f : String) (σ' : State) :
-    retK σ lhs f (.normal σ') = if lhs.isEmpty then .normal { σ with fld := σ'.fld } else .stuck (msg "missing return in" f) := rfl
-@[simp] theorem retK_panic (σ : State) (lhs : List LV) (f : String) (p : Panic) : retK σ lhs f (.panic p) = .panic p := rfl
+    retK σ lhs f (.normal σ') = if lhs.isEmpty then .normal { σ with fld := σ'.fld } else .stuck (msg "missing return in" f) := id rfl
+@[simp] theorem retK_panic (σ : State) (lhs : List LV) (f : String) (p : Panic) : retK σ lhs f (.panic p) = .panic p := id rfl
 @[congr] theorem retK_congr (σ : State) (lhs : List LV) (f : String) {o o' : Out} (h : o = o') :
     retK σ lhs f o = retK σ lhs f o' := by rw [h]
 theorem retK_ite (σ : State) (lhs : List LV) (f : String) (c : Prop) [Decidable c] (a b : Out) :
@@ -162,8 +167,8 @@ def Out.fin : Out → Option (List Val × Env)
   | .normal σ => some ([], σ.fld)
   | _ => none
 
-@[simp] theorem Out.fin_ret (rs : List Val) (σ : State) : (Out.ret rs σ).fin = some (rs, σ.fld) := rfl
-@[simp] theorem Out.fin_normal (σ : State) : (Out.normal σ).fin = some ([], σ.fld) := rfl
+@[simp] theorem Out.fin_ret (rs : List Val) (σ : State) : (Out.ret rs σ).fin = some (rs, σ.fld) := id rfl
+@[simp] theorem Out.fin_normal (σ : State) : (Out.normal σ).fin = some ([], σ.fld) := id rfl
 theorem Out.fin_ite (c : Prop) [Decidable c] (a b : Out) : (if c then a else b).fin = if c then a.fin else b.fin := by
   split <;> rfl
 
@@ -191,8 +196,8 @@ section
 variable (X : Ctx) (rec : Stmt → State → Out) (σ : State)
 
 /-- not a simp lemma: unfold one level explicitly (`rw [exec_succ]`), so that calls and loop continuations stay folded -/
-theorem exec_succ (fuel : Nat) (s : Stmt) : exec X (fuel + 1) s σ = execS X (exec X fuel) s σ := rfl
-@[simp] theorem exec_zero (s : Stmt) : exec X 0 s σ = .oof := rfl
+theorem exec_succ (fuel : Nat) (s : Stmt) : exec X (fuel + 1) s σ = execS X (exec X fuel) s σ := id rfl
+@[simp] theorem exec_zero (s : Stmt) : exec X 0 s σ = .oof := id rfl
 
 @[simp] theorem execS_skip : execS X rec .skip σ = .normal σ := by simp [execS]
 @[simp] theorem execS_brk : execS X rec .brk σ = .brk σ := by simp [execS]
@@ -270,14 +275,14 @@ end
 
 /-! ## expressions -/
 
-attribute [simp] evalEs evalOpt Env.get Env.set State.assign State.assign1
+attribute [simp] Env.get Env.set State.assign State.assign1
 
 /-- the right operand of `&&` / `||` must be a boolean -/
 def boolK : Val → Res Val
   | .bool r => .ok (.bool r)
   | _ => .stuck "operand"
 
-@[simp] theorem boolK_bool (b : Bool) : boolK (.bool b) = .ok (.bool b) := rfl
+@[simp] theorem boolK_bool (b : Bool) : boolK (.bool b) = .ok (.bool b) := id rfl
 
 /-- `a && b` after `a` has been evaluated -/
 def andK (rb : Res Val) : Val → Res Val
@@ -297,6 +302,14 @@ def orK (rb : Res Val) : Val → Res Val
 
 section
 variable (X : Ctx) (σ : State)
+/- The equation lemmas Lean generates for `evalEs` / `evalOpt` hold by `rfl` and `simp` would use them
+   definitionally; the kernel then re-checks them by unfolding the structural recursion over the nested inductive
+   `Expr`, which overflows its stack on larger terms.  These restatements are ordinary (propositional) rewrites. -/
+@[simp] theorem evalOpt_none (d : Val) : evalOpt X σ none d = .ok d := by rw [evalOpt]
+@[simp] theorem evalOpt_some (e : Expr) (d : Val) : evalOpt X σ (some e) d = evalE X σ e := by rw [evalOpt]
+@[simp] theorem evalEs_nil : evalEs X σ [] = .ok [] := by rw [evalEs]
+@[simp] theorem evalEs_cons (e : Expr) (es : List Expr) :
+    evalEs X σ (e :: es) = (evalE X σ e).bind fun v => (evalEs X σ es).bind fun vs => .ok (v :: vs) := by rw [evalEs]
 @[simp] theorem evalE_lit (v : Val) : evalE X σ (.lit v) = .ok v := by simp [evalE]
 @[simp] theorem evalE_loc (x : String) :
     evalE X σ (.loc x) = match σ.loc.get x with | some v => .ok v | none => .stuck (msg "unset local" x) := by
@@ -324,36 +337,36 @@ variable (X : Ctx) (σ : State)
     evalE X σ (.call f args) = (evalEs X σ args).bind (callVal X f) := by simp [evalE]
 end
 
-@[simp] theorem evalUn_not (b : Bool) : evalUn .not (.bool b) = .ok (.bool (!b)) := rfl
-@[simp] theorem evalUn_neg (t : Ty) (v : Int) : evalUn (.neg t) (.int v) = .ok (.int (wrap t (-v))) := rfl
+@[simp] theorem evalUn_not (b : Bool) : evalUn .not (.bool b) = .ok (.bool (!b)) := id rfl
+@[simp] theorem evalUn_neg (t : Ty) (v : Int) : evalUn (.neg t) (.int v) = .ok (.int (wrap t (-v))) := id rfl
 
-@[simp] theorem evalBin_add (t : Ty) (a b : Int) : evalBin (.add t) (.int a) (.int b) = .ok (.int (wrap t (a + b))) := rfl
-@[simp] theorem evalBin_sub (t : Ty) (a b : Int) : evalBin (.sub t) (.int a) (.int b) = .ok (.int (wrap t (a - b))) := rfl
-@[simp] theorem evalBin_mul (t : Ty) (a b : Int) : evalBin (.mul t) (.int a) (.int b) = .ok (.int (wrap t (a * b))) := rfl
+@[simp] theorem evalBin_add (t : Ty) (a b : Int) : evalBin (.add t) (.int a) (.int b) = .ok (.int (wrap t (a + b))) := id rfl
+@[simp] theorem evalBin_sub (t : Ty) (a b : Int) : evalBin (.sub t) (.int a) (.int b) = .ok (.int (wrap t (a - b))) := id rfl
+@[simp] theorem evalBin_mul (t : Ty) (a b : Int) : evalBin (.mul t) (.int a) (.int b) = .ok (.int (wrap t (a * b))) := id rfl
 @[simp] theorem evalBin_div (t : Ty) (a b : Int) :
-    evalBin (.div t) (.int a) (.int b) = if b = 0 then .panic .divide else .ok (.int (wrap t (Int.tdiv a b))) := rfl
+    evalBin (.div t) (.int a) (.int b) = if b = 0 then .panic .divide else .ok (.int (wrap t (Int.tdiv a b))) := id rfl
 @[simp] theorem evalBin_rem (t : Ty) (a b : Int) :
-    evalBin (.rem t) (.int a) (.int b) = if b = 0 then .panic .divide else .ok (.int (wrap t (Int.tmod a b))) := rfl
-@[simp] theorem evalBin_band (a b : Int) : evalBin .band (.int a) (.int b) = .ok (.int (a.toNat &&& b.toNat : Nat)) := rfl
-@[simp] theorem evalBin_bor (a b : Int) : evalBin .bor (.int a) (.int b) = .ok (.int (a.toNat ||| b.toNat : Nat)) := rfl
-@[simp] theorem evalBin_bxor (a b : Int) : evalBin .bxor (.int a) (.int b) = .ok (.int (a.toNat ^^^ b.toNat : Nat)) := rfl
-@[simp] theorem evalBin_shr (a b : Int) : evalBin .shr (.int a) (.int b) = .ok (.int (a.toNat >>> b.toNat : Nat)) := rfl
+    evalBin (.rem t) (.int a) (.int b) = if b = 0 then .panic .divide else .ok (.int (wrap t (Int.tmod a b))) := id rfl
+@[simp] theorem evalBin_band (a b : Int) : evalBin .band (.int a) (.int b) = .ok (.int (a.toNat &&& b.toNat : Nat)) := id rfl
+@[simp] theorem evalBin_bor (a b : Int) : evalBin .bor (.int a) (.int b) = .ok (.int (a.toNat ||| b.toNat : Nat)) := id rfl
+@[simp] theorem evalBin_bxor (a b : Int) : evalBin .bxor (.int a) (.int b) = .ok (.int (a.toNat ^^^ b.toNat : Nat)) := id rfl
+@[simp] theorem evalBin_shr (a b : Int) : evalBin .shr (.int a) (.int b) = .ok (.int (a.toNat >>> b.toNat : Nat)) := id rfl
 @[simp] theorem evalBin_shl (t : Ty) (a b : Int) :
-    evalBin (.shl t) (.int a) (.int b) = .ok (.int (wrap t (a.toNat <<< b.toNat : Nat))) := rfl
-@[simp] theorem evalBin_eq (a b : Int) : evalBin .eq (.int a) (.int b) = .ok (.bool (decide (a = b))) := rfl
-@[simp] theorem evalBin_ne (a b : Int) : evalBin .ne (.int a) (.int b) = .ok (.bool (decide (a ≠ b))) := rfl
-@[simp] theorem evalBin_lt (a b : Int) : evalBin .lt (.int a) (.int b) = .ok (.bool (decide (a < b))) := rfl
-@[simp] theorem evalBin_le (a b : Int) : evalBin .le (.int a) (.int b) = .ok (.bool (decide (a ≤ b))) := rfl
-@[simp] theorem evalBin_gt (a b : Int) : evalBin .gt (.int a) (.int b) = .ok (.bool (decide (a > b))) := rfl
-@[simp] theorem evalBin_ge (a b : Int) : evalBin .ge (.int a) (.int b) = .ok (.bool (decide (a ≥ b))) := rfl
-@[simp] theorem evalBin_eqb (a b : Bool) : evalBin .eq (.bool a) (.bool b) = .ok (.bool (a == b)) := rfl
-@[simp] theorem evalBin_neb (a b : Bool) : evalBin .ne (.bool a) (.bool b) = .ok (.bool (a != b)) := rfl
-@[simp] theorem evalBin_eqs (a b : Bytes) : evalBin .eq (.bytes a) (.bytes b) = .ok (.bool (a == b)) := rfl
-@[simp] theorem evalBin_nes (a b : Bytes) : evalBin .ne (.bytes a) (.bytes b) = .ok (.bool (a != b)) := rfl
+    evalBin (.shl t) (.int a) (.int b) = .ok (.int (wrap t (a.toNat <<< b.toNat : Nat))) := id rfl
+@[simp] theorem evalBin_eq (a b : Int) : evalBin .eq (.int a) (.int b) = .ok (.bool (decide (a = b))) := id rfl
+@[simp] theorem evalBin_ne (a b : Int) : evalBin .ne (.int a) (.int b) = .ok (.bool (decide (a ≠ b))) := id rfl
+@[simp] theorem evalBin_lt (a b : Int) : evalBin .lt (.int a) (.int b) = .ok (.bool (decide (a < b))) := id rfl
+@[simp] theorem evalBin_le (a b : Int) : evalBin .le (.int a) (.int b) = .ok (.bool (decide (a ≤ b))) := id rfl
+@[simp] theorem evalBin_gt (a b : Int) : evalBin .gt (.int a) (.int b) = .ok (.bool (decide (a > b))) := id rfl
+@[simp] theorem evalBin_ge (a b : Int) : evalBin .ge (.int a) (.int b) = .ok (.bool (decide (a ≥ b))) := id rfl
+@[simp] theorem evalBin_eqb (a b : Bool) : evalBin .eq (.bool a) (.bool b) = .ok (.bool (a == b)) := id rfl
+@[simp] theorem evalBin_neb (a b : Bool) : evalBin .ne (.bool a) (.bool b) = .ok (.bool (a != b)) := id rfl
+@[simp] theorem evalBin_eqs (a b : Bytes) : evalBin .eq (.bytes a) (.bytes b) = .ok (.bool (a == b)) := id rfl
+@[simp] theorem evalBin_nes (a b : Bytes) : evalBin .ne (.bytes a) (.bytes b) = .ok (.bool (a != b)) := id rfl
 
-@[simp] theorem lenVal_bytes (s : Bytes) : lenVal (.bytes s) = .ok (.int s.length) := rfl
-@[simp] theorem lenVal_list (s : List Val) : lenVal (.list s) = .ok (.int s.length) := rfl
-@[simp] theorem asInt_int (v : Int) : asInt (.int v) = .ok v := rfl
+@[simp] theorem lenVal_bytes (s : Bytes) : lenVal (.bytes s) = .ok (.int s.length) := id rfl
+@[simp] theorem lenVal_list (s : List Val) : lenVal (.list s) = .ok (.int s.length) := id rfl
+@[simp] theorem asInt_int (v : Int) : asInt (.int v) = .ok v := id rfl
 
 theorem indexVal_bytes (s : Bytes) (i : Nat) (h : i < s.length) :
     indexVal (.bytes s) (.int i) = .ok (.int s[i].toNat) := by
@@ -383,16 +396,16 @@ theorem byte_eq_lit (b : UInt8) (k : Nat) (hk : k < 256) : ((b.toNat : Int) = (k
 
 @[simp] theorem sliceVal_bytes (s : Bytes) (lo hi : Int) :
     sliceVal (.bytes s) lo hi =
-      if 0 ≤ lo ∧ lo ≤ hi ∧ hi ≤ s.length then .ok (.bytes ((s.take hi.toNat).drop lo.toNat)) else .panic .slice := rfl
+      if 0 ≤ lo ∧ lo ≤ hi ∧ hi ≤ s.length then .ok (.bytes ((s.take hi.toNat).drop lo.toNat)) else .panic .slice := id rfl
 @[simp] theorem sliceVal_list (s : List Val) (lo hi : Int) :
     sliceVal (.list s) lo hi =
-      if 0 ≤ lo ∧ lo ≤ hi ∧ hi ≤ s.length then .ok (.list ((s.take hi.toNat).drop lo.toNat)) else .panic .slice := rfl
+      if 0 ≤ lo ∧ lo ≤ hi ∧ hi ≤ s.length then .ok (.list ((s.take hi.toNat).drop lo.toNat)) else .panic .slice := id rfl
 
-@[simp] theorem valEq_int (a b : Int) : valEq (.int a) (.int b) = some (decide (a = b)) := rfl
-@[simp] theorem valEq_bool (a b : Bool) : valEq (.bool a) (.bool b) = some (a == b) := rfl
-@[simp] theorem valEq_bytes (a b : Bytes) : valEq (.bytes a) (.bytes b) = some (a == b) := rfl
+@[simp] theorem valEq_int (a b : Int) : valEq (.int a) (.int b) = some (decide (a = b)) := id rfl
+@[simp] theorem valEq_bool (a b : Bool) : valEq (.bool a) (.bool b) = some (a == b) := id rfl
+@[simp] theorem valEq_bytes (a b : Bytes) : valEq (.bytes a) (.bytes b) = some (a == b) := id rfl
 
-@[simp] theorem matchCase_nil (X : Ctx) (σ : State) (tag : Val) : matchCase X σ tag [] = .ok false := rfl
+@[simp] theorem matchCase_nil (X : Ctx) (σ : State) (tag : Val) : matchCase X σ tag [] = .ok false := id rfl
 /-- a case value that is an integer literal (the only kind the whitelisted switches use) -/
 @[simp] theorem matchCase_lit_int (X : Ctx) (σ : State) (a b : Int) (es : List Expr) :
     matchCase X σ (.int a) (.lit (.int b) :: es) = if a = b then .ok true else matchCase X σ (.int a) es := by
@@ -404,21 +417,21 @@ theorem byte_eq_lit (b : UInt8) (k : Nat) (hk : k < 256) : ((b.toNat : Int) = (k
       | some v => .ok v
       | none => match X.ext f args with
         | some [v] => .ok v
-        | _ => .stuck (msg "call" f) := rfl
+        | _ => .stuck (msg "call" f) := id rfl
 
 @[simp] theorem builtin_append_byte (s : Bytes) (c : Int) :
-    builtin "append" [.bytes s, .int c] = some (.bytes (s ++ [UInt8.ofNat c.toNat])) := rfl
+    builtin "append" [.bytes s, .int c] = some (.bytes (s ++ [UInt8.ofNat c.toNat])) := id rfl
 @[simp] theorem builtin_append_val (s : List Val) (v : Val) : builtin "append" [.list s, v] = some (.list (s ++ [v])) := by
   cases v <;> rfl
-@[simp] theorem builtin_appends_bytes (s t : Bytes) : builtin "append..." [.bytes s, .bytes t] = some (.bytes (s ++ t)) := rfl
-@[simp] theorem builtin_appends_list (s t : List Val) : builtin "append..." [.list s, .list t] = some (.list (s ++ t)) := rfl
-@[simp] theorem builtin_min (a b : Int) : builtin "min" [.int a, .int b] = some (.int (min a b)) := rfl
-@[simp] theorem builtin_max (a b : Int) : builtin "max" [.int a, .int b] = some (.int (max a b)) := rfl
+@[simp] theorem builtin_appends_bytes (s t : Bytes) : builtin "append..." [.bytes s, .bytes t] = some (.bytes (s ++ t)) := id rfl
+@[simp] theorem builtin_appends_list (s t : List Val) : builtin "append..." [.list s, .list t] = some (.list (s ++ t)) := id rfl
+@[simp] theorem builtin_min (a b : Int) : builtin "min" [.int a, .int b] = some (.int (min a b)) := id rfl
+@[simp] theorem builtin_max (a b : Int) : builtin "max" [.int a, .int b] = some (.int (max a b)) := id rfl
 @[simp] theorem builtin_indexByte (s : Bytes) (c : Int) :
-    builtin "bytes.IndexByte" [.bytes s, .int c] = some (.int (indexByte s (UInt8.ofNat c.toNat))) := rfl
+    builtin "bytes.IndexByte" [.bytes s, .int c] = some (.int (indexByte s (UInt8.ofNat c.toNat))) := id rfl
 @[simp] theorem builtin_lastIndexByte (s : Bytes) (c : Int) :
-    builtin "strings.LastIndexByte" [.bytes s, .int c] = some (.int (lastIndexByte s (UInt8.ofNat c.toNat))) := rfl
-@[simp] theorem builtin_tuple (args : List Val) : builtin "tuple" args = some (.list args) := rfl
+    builtin "strings.LastIndexByte" [.bytes s, .int c] = some (.int (lastIndexByte s (UInt8.ofNat c.toNat))) := id rfl
+@[simp] theorem builtin_tuple (args : List Val) : builtin "tuple" args = some (.list args) := id rfl
 /-- a name that is not a builtin (the hypothesis is closed by `by decide`) -/
 theorem builtin_none (f : String) (args : List Val)
     (h : ¬ (f = "min" ∨ f = "max" ∨ f = "bytes.IndexByte" ∨ f = "strings.IndexByte" ∨ f = "strings.LastIndexByte" ∨
@@ -429,7 +442,7 @@ theorem builtin_none (f : String) (args : List Val)
 @[simp] theorem assignK_def (σ : State) (lhs : List LV) (msg : String) (vs : List Val) :
     assignK σ lhs msg vs = match σ.assign lhs vs with
       | some σ' => .normal σ'
-      | none => .stuck msg := rfl
+      | none => .stuck msg := id rfl
 
 /-! ## `for range` is a fold -/
 
